@@ -296,8 +296,11 @@ SB_extends(SB* self, PyObject* other)
         return NULL;
     }
 
-    if (PyDict_GetItem(implied, other) != NULL)
+    if (PyDict_GetItemWithError(implied, other) != NULL)
         Py_RETURN_TRUE;
+    /* An unhashable *other* raises, as ``other in self._implied`` does. */
+    if (PyErr_Occurred())
+        return NULL;
     Py_RETURN_FALSE;
 }
 
